@@ -13,6 +13,7 @@ package props
 import (
 	"bytes"
 	"fmt"
+	"strings"
 
 	"seehuhn.de/go/postscript/type1"
 
@@ -63,6 +64,22 @@ func runC09(r *rt.Runner) {
 				o.maxGlyphs = 300
 			}
 			f := genFont(rng, o)
+			if rng.IntN(40) == 0 {
+				// a large font: clear-text and encrypted parts beyond 64 KiB
+				for i := 0; i < 120+rng.IntN(200); i++ {
+					g := &type1.Glyph{WidthX: float64(rng.IntN(1000))}
+					g.MoveTo(0, 0)
+					for j, n := 0, 100+rng.IntN(100); j < n; j++ {
+						g.LineTo(float64(rng.IntN(4001)-2000), float64(rng.IntN(4001)-2000))
+					}
+					g.ClosePath()
+					f.Glyphs[fmt.Sprintf("big%d", i)] = g
+				}
+				if rng.IntN(2) == 0 {
+					f.FontInfo.Notice = strings.Repeat("All rights reserved. ", 3500)
+				}
+				o.f("large font (sections beyond 64 KiB)")
+			}
 			c.SetDetail(func() string { return describeFont(f) })
 			for _, fm := range allFormats {
 				var buf bytes.Buffer
